@@ -155,6 +155,15 @@ fn gen_case(r: &mut Prng, big: bool) -> Case {
         pool.push((Prog::one(deep_fail), ctx.clone()));
         pool.push((Prog::one(deep_ok), ctx));
     }
+    if !long_history && r.chance(1, 10) {
+        // a WARM process: the main task evaluates 20..140 programs of the pool before the threads start
+        // (whatever the engine keeps about use counts, recency or look-up order keeps moving while they run)
+        case.tag = "C16-warm".into();
+        for _ in 0..(20 + r.usize(120)) {
+            let (prog, ctx) = r.pick(&pool).clone();
+            case.pre.push(Op::Exec { prog, ctx: CtxRef::Fresh(ctx) });
+        }
+    }
     let nthreads = if long_history { 1 } else { 1 + r.usize(if big { 4 } else { 3 }) };
     for _ in 0..nthreads {
         // one long history in five is VERY long (1000..2000 operations)
@@ -304,7 +313,7 @@ impl Prop for C16 {
                 "context functions in these programs return constants (a handler with its own state would legitimately couple evaluations)",
             ],
             fault_kinds: &["first_use_race", "preempt_in_call", "fresh_process"],
-            probes: &["long_failing_history", "shared_ast_executed_by_two_threads", "program_fails_midway", "same_program_twice_in_history", "textually_close_programs"],
+            probes: &["long_failing_history", "shared_ast_executed_by_two_threads", "program_fails_midway", "same_program_twice_in_history", "textually_close_programs", "warm_process_then_concurrent_use"],
         }
     }
 
@@ -357,6 +366,9 @@ impl Prop for C16 {
         let evals: usize = case.threads.iter().map(|t| t.len()).sum();
         if case.tag == "C16-long" {
             rt.probe("long_failing_history");
+        }
+        if case.tag == "C16-warm" {
+            rt.probe("warm_process_then_concurrent_use");
         }
         for j in 0..nsched {
             let spec = crate::props::c13::schedule_for(&mut sr, j, decisions);
